@@ -340,15 +340,18 @@ impl super::MainState {
         } else if validate_channel(mask).is_ok() {
             // if channel
             if let Some(channel) = state.channels.get(mask) {
-                for (u, chum) in &channel.users {
-                    self.send_who_info(
-                        conn_state,
-                        Some((mask, chum)),
-                        u,
-                        state.users.get(u).unwrap(),
-                        user,
-                    )
-                    .await?;
+                // do not reveal secret channel to user that is not in this channel.
+                if !channel.modes.secret || channel.users.contains_key(user_nick) {
+                    for (u, chum) in &channel.users {
+                        self.send_who_info(
+                            conn_state,
+                            Some((mask, chum)),
+                            u,
+                            state.users.get(u).unwrap(),
+                            user,
+                        )
+                        .await?;
+                    }
                 }
             }
         } else if validate_username(mask).is_ok() {
